@@ -1,6 +1,7 @@
 import Syzgy.Lemmas.FreeMap
 import Syzgy.Lemmas.Scan
 import Syzgy.Lemmas.Refine
+import Syzgy.Lemmas.Reuse
 /-!
 # C09 — well-formed span chain, reuse of freed space
 -/
@@ -83,6 +84,36 @@ theorem write_places_span (file : Bytes) (free : List Sp) (segs : List Seg) (seq
        ∃ z, GrowOK file.length z ∧
         imgs = [("grow", file ++ zeros z), ("writeAt", render (A ++ (.act seq rid st pad :: F) ++ B))]) :=
   place_spec file free segs seq rid st h hnew hbig
+
+/-- **a write that fits into some free region leaves the file length alone** — in any state, no invariant needed -/
+theorem write_into_free_region_does_not_grow (s : SF) (rid : Bytes) (st : List Stream) (m : Mut)
+    (h : writeRecord s rid st = .ok m) (r : Sp) (hr : r ∈ s.free) (hfit : (Seg.act s.seq rid st 0).size ≤ r.len) :
+    m.st.file.length = s.file.length :=
+  write_no_growth s rid st m h r hr hfit
+
+/-- **freed space is reused (overwrite)**: on a state satisfying the invariant, an overwrite releases the
+    span of the superseded version (the one active span of that id), and the next write of any record
+    whose span is no longer than the released one does not grow the file. Rewriting a document with
+    content of the same size therefore alternates between two places: the file can grow again only
+    when the record itself gets longer (its sequence number crosses a 7-bit length boundary: four
+    times in 2³² writes). -/
+theorem superseded_space_is_reused (s : SF) (segs : List Seg) (h : Rep s segs) (rid : Bytes) (st : List Stream)
+    (hnew : NewOK s.seq rid st)
+    (hbig : s.file.length + expandBy s.file.length (Seg.act s.seq rid st 0).size < 4294967296)
+    (hold : docOf rid segs ≠ none) :
+    ∃ m q t p, writeRecord s rid st = .ok m ∧ Seg.act q rid t p ∈ segs ∧
+      ∀ rid2 st2 m2, writeRecord m.st rid2 st2 = .ok m2 →
+        (Seg.act m.st.seq rid2 st2 0).size ≤ (Seg.act q rid t p).size →
+        m2.st.file.length = m.st.file.length :=
+  Syzgy.superseded_space_is_reused s segs h rid st hnew hbig hold
+
+/-- **freed space is reused (removal)** -/
+theorem removed_space_is_reused (s : SF) (segs : List Seg) (h : Rep s segs) (rid : Bytes) (hd : docOf rid segs ≠ none) :
+    ∃ m q t p, removeRecord s rid = .ok m ∧ Seg.act q rid t p ∈ segs ∧
+      ∀ rid2 st2 m2, writeRecord m.st rid2 st2 = .ok m2 →
+        (Seg.act m.st.seq rid2 st2 0).size ≤ (Seg.act q rid t p).size →
+        m2.st.file.length = m.st.file.length :=
+  Syzgy.removed_space_is_reused s segs h rid hd
 
 example : Good [⟨0, 15⟩, ⟨106, 4005⟩] := by
   refine ⟨by intro s hs; simp at hs; rcases hs with rfl | rfl <;> decide, by simp [Sp.stop]⟩
